@@ -215,23 +215,7 @@ def run(tier, seed, replay=None):
         rep.violation("proof", {"broken": problems}, no_input=not bad_cases)
 
     # the static theorems are about the Lean model of the compiler: its tie to the real xcmp (five stages, byte for byte)
-    model_corr = {}
-    try:
-        import subprocess, sys as _sys
-        outp = os.path.join(C.BUILD, "C08-c01model.json")
-        mr = subprocess.run([_sys.executable, os.path.join(C.ROOT, "runner", "c01model.py"), "--tier", tier],
-                            capture_output=True, text=True, timeout=3000,
-                            env=dict(os.environ, VERIF_SEED=str(seed + 1000), C01MODEL_OUT=outp))
-        if os.path.exists(outp):
-            model_corr = json.load(open(outp))
-            model_corr.pop("first_differences", None); model_corr.pop("generator_features", None); model_corr.pop("constructs", None)
-        model_corr["exit"] = mr.returncode
-        if mr.returncode != 0:
-            rep.violation("model-correspondence", {"broken": "Xcmp compiler model vs real xcmp differ (runner/c01model.py); the C08_static_* "
-                                                   "theorems are about that model", "detail": (mr.stdout + mr.stderr)[-3000:]},
-                          no_input=not bad_cases)
-    except Exception as e:   # pragma: no cover
-        rep.violation("model-correspondence", {"broken": "c01model.py could not run", "detail": str(e)}, no_input=not bad_cases)
+    model_corr = C.compiler_model_tie(rep, PID, tier, seed + 1000, bool(bad_cases))
 
     rep.coverage.update({
         "explanation": "dynamic check of the C08 clauses on real xcmp binaries executed instruction by instruction on the real hexsim "
